@@ -99,4 +99,12 @@ var plans = map[string]*Plan{
 		Real:        microReal, Stub: microStub, Assumptions: append(append([]string{}, commonAssumptions...), "porcupine v1.3.0 decides linearizability; Unknown (timeout) results are counted, never reported"),
 		ExpectProbes: []string{"concurrent-admin", "linearizable", "switch-with-ejected-backend"},
 	},
+	"C09": {
+		Level:     "exploration",
+		Scenarios: []ScenPlan{{"rl", 40000, 800000}, {"rllb", 8000, 100000}},
+		QuickWallS: 120, ThoroughWallS: 1500,
+		Rule:        "Scenario rl: the real TokenBucketRateLimiter, max_tokens 1-5, refill 1s-2h, 1-4 clients with drawn arrival scripts on the fake clock (sequential requests, same-instant bursts of 2-8 (thorough up to 64) tasks, gaps of fractions/multiples of refill, idle hours so the hourly bucket expiry runs); oracle: every pair of admissions within max+floor(T/refill)+1, same-instant <= max, full first burst, refill after idling, isolation by differential execution against a second limiter that only sees client A. Scenario rllb: limiter wired in the balancer: 429 not forwarded and counted, client-key precedence XFF > X-Real-IP > peer.",
+		Real:        microReal, Stub: microStub, Assumptions: commonAssumptions,
+		ExpectProbes: []string{"concurrent-burst", "idle-beyond-bucket-expiry", "lb-level-429"},
+	},
 }
